@@ -95,7 +95,14 @@ def run(ctx):
     afail = []
     for i, c in enumerate(acases):
         cut = min(next((j for j, o in enumerate(ol[i]) if o.get("in_dir")), len(c["ops"])) for ol in aruns.values())
-        ts = {cfg: transcript(ol[i][:cut]) for cfg, ol in aruns.items()}
+        # an operation that raised may leave a definition whose evaluation fails (e.g. on a location that does not exist):
+        # later updates then stop half-way at a point that follows the order among independent tasks (C18's subject);
+        # compared up to the first raising operation, that one by its exception class
+        ecut = min(next((j for j, o in enumerate(ol[i]) if o["err"] is not None), len(c["ops"])) for ol in aruns.values())
+        if ecut < cut:
+            ts = {cfg: transcript(ol[i][:ecut]) + transcript(ol[i][ecut:ecut + 1], full=False) for cfg, ol in aruns.items()}
+        else:
+            ts = {cfg: transcript(ol[i][:cut]) for cfg, ol in aruns.items()}
         t0 = ts[configs[0]]
         for cfg, t in ts.items():
             if t != t0 and not afail:
